@@ -178,6 +178,7 @@ def checkDT (toks : List String) : List Div :=
   (if (f "exit") != some "0" then [("dt.exit", id)] else []) ++
   (if (f "identical") != some "1" then [("dt.nondeterministic", id ++ " repeated runs differ")] else []) ++
   (if (f "alone_identical") != some "1" then [("dt.alone", id ++ " -file alone differs from whole-package run")] else []) ++
+  (if (f "seq_identical") == some "0" then [("dt.sequence", id ++ " output depends on an earlier run in the same directory")] else []) ++
   (if (f "others_untouched") != some "1" then [("dt.others", id ++ " other files touched / undocumented output path")] else [])
 
 def checkSM (toks : List String) : List Div :=
